@@ -23,8 +23,8 @@ BREAKERS = [{'desc': 'sqrt of a negative number for a too-small radius',
  {'desc': 'exit divides by zero in millimetre mode',
   'functions': ['ExcludeRegionState.ExcludeRegionState.exitExcludedRegion'],
   'module': 'ExcludeRegionState',
-  'new': '            f=self.feedRate / (self.feedRateUnitMultiplier - 1),\n            z=self._logicalMoveTo',
-  'old': '            f=self.feedRate / self.feedRateUnitMultiplier,\n            z=self._logicalMoveTo'},
+  'new': '            f=formatNumber(self.feedRate / (self.feedRateUnitMultiplier - 1)),\n            z=formatNumber(self._logicalMoveTo',
+  'old': '            f=formatNumber(self.feedRate / self.feedRateUnitMultiplier),\n            z=formatNumber(self._logicalMoveTo'},
  {'desc': 'zero segments for a degenerate arc (original F8)',
   'functions': ['GcodeHandlers.GcodeHandlers.planArc'],
   'module': 'GcodeHandlers',
